@@ -1,1 +1,13 @@
 //! Verification hooks (hx group); see `mod.rs`.
+//!
+//! Header-ex: the crate-private client handler, server handler, response decoding and
+//! wire codec, re-exported as drivers with plain-data interfaces. The drivers live next to
+//! the private items (`p2p/header_ex.rs`, `p2p/header_ex/client.rs`, module `verif_hooks`).
+
+pub use crate::p2p::hx_verif_hooks::{
+    AnswerReceiver, ClientDriver, ClientEvent, ClientSnapshot, Failure, MAX_PEERS_ as MAX_PEERS,
+    MAX_TRIES_ as MAX_TRIES, REQUEST_SIZE_LIMIT_ as REQUEST_SIZE_LIMIT,
+    RESPONSE_SIZE_LIMIT_ as RESPONSE_SIZE_LIMIT, ServerDriver, codec_read_request,
+    codec_read_response, codec_write_request, codec_write_response, decode_and_verify_responses,
+    request_is_head, request_is_valid,
+};
